@@ -5,6 +5,7 @@ import (
 	goerr "errors"
 	"fmt"
 	"io/fs"
+	"net"
 	"os"
 	"runtime"
 	"strings"
@@ -19,6 +20,7 @@ import (
 	"github.com/cockroachdb/logtags"
 	"github.com/cockroachdb/redact"
 	"github.com/gogo/protobuf/proto"
+	"github.com/gogo/protobuf/types"
 	gogostatus "github.com/gogo/status"
 	pkgerr "github.com/pkg/errors"
 	"google.golang.org/grpc/codes"
@@ -99,7 +101,7 @@ func (r *R) Sx() Sx {
 		return L(Sym(r.Op), s(0))
 	case "newf", "assertf", "fmterrorf":
 		return L(Sym(r.Op), fmtSx(r.Fmt))
-	case "errno":
+	case "errno", "foreignerrno":
 		return L(Sym(r.Op), N(r.I[0]))
 	case "unimpl":
 		return L(Sym(r.Op), s(0), s(1), s(2))
@@ -117,6 +119,8 @@ func (r *R) Sx() Sx {
 		return L(Sym(r.Op), k(0), s(0), s(1))
 	case "linkerror":
 		return L(Sym(r.Op), k(0), s(0), s(1), s(2))
+	case "operror":
+		return L(Sym(r.Op), k(0), s(0), s(1), s(2), s(3))
 	case "telemetry":
 		return L(Sym(r.Op), k(0), Strs(r.Strs))
 	case "tags":
@@ -296,6 +300,8 @@ func (r *R) Build(c *BuildCtx) error {
 		return e
 	case "errno":
 		return syscall.Errno(r.I[0])
+	case "foreignerrno":
+		return foreignErrno(syscall.Errno(r.I[0]))
 	case "unimpl":
 		return errors.UnimplementedError(errors.IssueLink{IssueURL: r.S[0], Detail: r.S[1]}, r.S[2])
 	case "assertf":
@@ -464,6 +470,19 @@ func (r *R) Build(c *BuildCtx) error {
 			return nil
 		}
 		return os.NewSyscallError(r.S[0], k)
+	case "operror":
+		k := kid(0)
+		if k == nil {
+			return nil
+		}
+		oe := &net.OpError{Op: r.S[0], Net: r.S[1], Err: k}
+		if r.S[2] != "" {
+			oe.Source = ut.Addr(r.S[2])
+		}
+		if r.S[3] != "" {
+			oe.Addr = ut.Addr(r.S[3])
+		}
+		return oe
 	case "uwrap":
 		k := kid(0)
 		if k == nil {
@@ -491,4 +510,22 @@ func (r *R) Build(c *BuildCtx) error {
 		return transfer(kid(0), r.Procs)
 	}
 	panic("Build: unknown op " + r.Op + " " + strings.Join(r.S, ","))
+}
+
+// foreignErrno: what DecodeError makes of a syscall.Errno sent by a process on
+// another platform (the message and the predicate flags are the sender's).
+func foreignErrno(n syscall.Errno) error {
+	enc := errors.EncodeError(context.Background(), n)
+	l := enc.GetLeaf()
+	var pl errorspb.ErrnoPayload
+	if err := types.UnmarshalAny(l.Details.FullDetails, &pl); err != nil {
+		panic(err)
+	}
+	pl.Arch = "plan9:mips"
+	any, err := types.MarshalAny(&pl)
+	if err != nil {
+		panic(err)
+	}
+	l.Details.FullDetails = any
+	return errors.DecodeError(context.Background(), enc)
 }
